@@ -1,4 +1,4 @@
-use anyhow::{Result, ensure};
+use anyhow::{Result, anyhow, ensure};
 use bitvec_helpers::{
     bitstream_io_reader::BsIoSliceReader, bitstream_io_writer::BitstreamIoWriter,
 };
@@ -68,15 +68,19 @@ fn parse_variable_bits(reader: &mut BsIoSliceReader, n: u32) -> Result<u32> {
 
     loop {
         let tmp: u32 = reader.get_n(n)?;
-        value += tmp;
+        value = value
+            .checked_add(tmp)
+            .ok_or_else(|| anyhow!("variable_bits value is too large"))?;
 
         // read_more flag
         if !reader.get()? {
             break;
         }
 
-        value <<= n;
-        value += 1 << n;
+        value = value
+            .checked_add(1)
+            .and_then(|v| v.checked_mul(1 << n))
+            .ok_or_else(|| anyhow!("variable_bits value is too large"))?;
     }
 
     Ok(value)
